@@ -16,7 +16,16 @@
 //     "<name> version <v>\nusage: <name> [options]\n" + description() + "\nusage: <name> [options]\nDefault command-line:\n<name> " + defaults(strlen(name)+1) + "\n"
 //   where description() / defaults() are what the direct calls below return (the application's name has prefixN-1 characters, so the default
 //   command line is the one the observation shows; prefixN = 0: name "app", compared with defaults(4)).  Nothing is printed when they agree.
-// Observation: [-997 if the context is inconsistent after the adds] [-996 flags len bytes.. if the help printed by Application::printHelp differs:
+//   Every case is ALSO run through Application::main(argc, argv) with --help / -h / --help=N / -hN (MainApp below: initOptions adds the case's context to the root
+//   context in which getOptions has put its "Basic Options"; getHelpOption allows N up to 5 or 6, or is the library's default flag for 1/4 of the cases): captured stdout must be the
+//   frame above around description() / defaults() of a reference context (addBasic + the case's context) at level N-1, main returns EXIT_SUCCESS without entering setup/run, the
+//   printed option entries obey the level rule, clashes with the basic options / invalid defaults / N out of range are reported (error(), EXIT_FAILURE, nothing printed).
+//   Nothing is added to the observation when all of this holds.  C19M_DEBUG=1 / C19M_DUMP=1 in the environment: diagnostics on stderr.
+// Observation: [-997 if the context is inconsistent after the adds]
+//              [-995 flags form N if a run of Application::main differs: flags 1 = text differs from frame + description() + defaults() at level N-1, 2 = level rule broken in the printed
+//               entries, 4 = no help printed / reference refused, 8 = exit code or error count, 16 = setup()/run() entered, 32 = N out of range accepted; form 0 --help=N, 1 -hN, 2 --help, 3 -h,
+//               4 out-of-range; form / N of the first failing run]
+//              [-996 flags len bytes.. if the help printed by Application::printHelp differs:
 //              flags 1 = description part / frame differs, 2 = default command line differs; bytes = the captured text behind "Default command-line:\n"]
 //              per declaration (in order) nameLen name.. alias level neg of the registered option | -1 (key refused) ; descLen desc.. fault(0) ; defsLen defs.. ;
 //              0 nParsed { optIndex valLen val.. }*  |  errorClass (1 unknown, 2 ambiguous, 3 syntax, 9 other)
@@ -24,6 +33,7 @@
 #include <deque>
 #include <memory>
 #include <unistd.h>
+#include <cctype>
 #include <potassco/application.h>
 #include <potassco/program_opts/program_options.h>
 #include <potassco/program_opts/typed_value.h>
@@ -54,8 +64,9 @@ struct HelpApp : Potassco::Application {
 	void setup() {}
 	void run()   {}
 };
-// Runs app.printHelp(ctx) with fd 1 pointing into a temporary file and returns what was written.
-static std::string capturedHelp(HelpApp& app, const Po::OptionContext& ctx) {
+// Runs f() with fd 1 pointing into a temporary file and returns what was written.
+template <class F>
+static std::string captured(F f) {
 	static FILE* tmp = std::tmpfile();
 	std::string got;
 	if (!tmp) return got;
@@ -64,7 +75,7 @@ static std::string capturedHelp(HelpApp& app, const Po::OptionContext& ctx) {
 	int saved = dup(1);
 	if (saved < 0) return got;
 	if (ftruncate(tfd, 0) != 0 || lseek(tfd, 0, SEEK_SET) < 0 || dup2(tfd, 1) < 0) { close(saved); return got; }
-	try { app.printHelp(ctx); } catch (...) { got = "<exception>"; }
+	try { f(); } catch (...) { got = "<exception>"; }
 	std::fflush(stdout);
 	dup2(saved, 1);
 	close(saved);
@@ -76,6 +87,70 @@ static std::string capturedHelp(HelpApp& app, const Po::OptionContext& ctx) {
 	}
 	return got;
 }
+struct CallPrintHelp { HelpApp* app; const Po::OptionContext* ctx; void operator()() const { app->printHelp(*ctx); } };
+static std::string capturedHelp(HelpApp& app, const Po::OptionContext& ctx) { CallPrintHelp f = {&app, &ctx}; return captured(f); }
+
+// The path a user takes: Application::main(argc, argv) with --help[=N] / -h[N].  initOptions() hands the case's context (its merged groups, the very
+// Option objects) to the root context getOptions() has put its own "Basic Options" group into; nothing else is overridden that takes part in
+// printing (printHelp / printUsage / printVersion are the library's), error / info / warn only count instead of writing to stderr.
+struct MainApp : HelpApp {
+	const Po::OptionContext* src; unsigned maxHelp; bool ran; mutable int errors;
+	MainApp(const std::string& n, const Po::OptionContext& s, unsigned mh) : HelpApp(n), src(&s), maxHelp(mh), ran(false), errors(0) {}
+	static const char* helpText() { return "Print {1=basic|2=more|3=full} help and exit"; }
+	HelpOpt getHelpOption() const { return maxHelp <= 1 ? Potassco::Application::getHelpOption() : HelpOpt(helpText(), maxHelp); }
+	void error(const char*) const { ++errors; }
+	void info(const char*)  const {}
+	void warn(const char*)  const {}
+	void initOptions(Po::OptionContext& root) { root.add(*src); }
+	void setup() { ran = true; }
+	void run()   { ran = true; }
+};
+struct CallMain { MainApp* app; std::vector<std::string>* args; int* ret;
+	void operator()() const {
+		std::vector<char*> argv;
+		for (size_t i = 0; i != args->size(); ++i) argv.push_back(&(*args)[i][0]);
+		argv.push_back(0);
+		*ret = app->main((int)args->size(), &argv[0]);
+	}
+};
+// What getOptions() declares itself (src/application.cpp), written down once more: the reference context is this group + the case's context.
+struct BasicVars { unsigned help, verbose, timeout; bool version, fast; BasicVars() : help(0), verbose(0), timeout(0), version(false), fast(false) {} };
+static void addBasic(Po::OptionContext& ref, const MainApp& app, BasicVars& b) {
+	Po::OptionGroup basic("Basic Options");
+	Potassco::Application::HelpOpt ho = app.getHelpOption();
+	Po::Value* hv = ho.second == 1 ? Po::storeTo(b.help)->flag() : Po::storeTo(b.help)->arg("<n>")->implicit("1");
+	basic.addOptions()
+		("help,h"      , hv, ho.first)
+		("version,v"   , Po::flag(b.version), "Print version information and exit")
+		("verbose,V"   , Po::storeTo(b.verbose)->implicit("-1")->arg("<n>"), "Set verbosity level to %A")
+		("time-limit"  , Po::storeTo(b.timeout)->arg("<n>"), "Set time limit to %A seconds (0=no limit)")
+		("fast-exit,@1", Po::flag(b.fast), "Force fast exit (do not call dtors)")
+	;
+	ref.add(basic);
+}
+static bool plainName(const std::string& n) {
+	if (n.empty()) return false;
+	for (size_t i = 0; i != n.size(); ++i) { char ch = n[i]; if (!std::isalnum((unsigned char)ch) && ch != '-' && ch != '_') return false; }
+	return true;
+}
+// number of lines of `body` that are the entry of option `name`: "  --name" or "  --[no-]name" followed by one of "[,= :" or the end of the line
+static size_t headerLines(const std::string& body, const std::string& name) {
+	size_t cnt = 0, pos = 0;
+	while (pos <= body.size()) {
+		size_t eol = body.find('\n', pos);
+		if (eol == std::string::npos) eol = body.size();
+		for (int form = 0; form != 2; ++form) {
+			std::string h = std::string(form ? "  --[no-]" : "  --") + name;
+			if (eol - pos >= h.size() && body.compare(pos, h.size(), h) == 0) {
+				if (pos + h.size() == eol || std::strchr("[,= :", body[pos + h.size()])) { ++cnt; break; }
+			}
+		}
+		pos = eol + 1;
+	}
+	return cnt;
+}
+static unsigned long statRuns = 0, statPrinted = 0, statRefused = 0, statLevelChecked = 0;   // printed to stderr at the end when C19M_DEBUG is set
+static bool lenientFlag(const std::string&, bool& b) { b = true; return true; }
 
 int main() {
 	Case c; Obs o;
@@ -159,7 +234,10 @@ int main() {
 					}
 					if (k == gs.count) break;
 					Spec& s = specs[gs.first + k];
-					Po::Value* v = s.flag ? static_cast<Po::Value*>(Po::flag(s.b)) : static_cast<Po::Value*>(Po::storeTo(s.s));
+					// a flag's value parser: the library's (most defaults written into a case are then INVALID defaults, which Application::main reports
+				// instead of printing help) or, for fifteen flags out of sixteen, one that takes any string; the help text does not depend on it
+				bool lenient = (gs.first + k + s.name.size()) % 16 != 0;
+				Po::Value* v = s.flag ? static_cast<Po::Value*>(lenient ? Po::storeTo(s.b, &lenientFlag)->flag() : Po::flag(s.b)) : static_cast<Po::Value*>(Po::storeTo(s.s));
 					// the three descriptions share one setter (Value::desc) whose storage depends on how many were set before:
 					// attach them in an order chosen from the case (all six orders occur)
 					static const int perm[6][3] = {{0,1,2},{0,2,1},{1,0,2},{1,2,0},{2,0,1},{2,1,0}};
@@ -245,7 +323,98 @@ int main() {
 			helpDefs = got.substr(cut);
 			if (helpDefs != app.name + " " + appDefs + "\n") helpFlags |= 2;
 		}
+		// the same help the way a user gets it: Application::main(argc, argv) with --help / --help=N / -h / -hN (getOptions: the application's own
+		// "Basic Options" group in front of the case's groups, parseCommandLine, assignDefaults, level = N-1, setActiveDescLevel, printHelp, return)
+		ll mainFlags = 0, mainForm = 0, mainN = 0;
+		{
+			unsigned long hsh = 1469598103UL;
+			for (size_t i = 0; i != c.v.size(); ++i) hsh = (hsh ^ (unsigned long)c.v[i]) * 1099511UL + 7;
+			hsh >>= 7;
+			unsigned maxHelp = hsh % 4 == 0 ? 1u : (hsh % 4 == 1 ? 6u : 5u);
+			std::string appName = prefix ? std::string(prefix - 1, 'a') : std::string("app");
+			bool newline = false, plain = true;
+			for (size_t i = 0; i != specs.size(); ++i) {
+				const Spec& s = specs[i];
+				newline = newline || (s.name + s.arg + s.impl + s.dflt + s.desc).find('\n') != std::string::npos;
+			}
+			for (size_t g = 0; g != ng; ++g) newline = newline || groups[g].cap.find('\n') != std::string::npos;
+			for (Po::OptionContext::option_iterator x = ctx.begin(); x != ctx.end(); ++x) plain = plain && plainName((*x)->name());
+			// runs: form 0 "--help=N", 1 "-hN", 2 "--help" (N = 1), 3 "-h" (N = 1), 4 "--help=N" with N out of range (0 or maxHelp+1)
+			std::vector<std::pair<int, unsigned> > runs;
+			runs.push_back(std::make_pair(2, 1u)); runs.push_back(std::make_pair(3, 1u));
+			if (maxHelp > 1) {
+				for (unsigned n = 1; n <= maxHelp; ++n) runs.push_back(std::make_pair((int)((hsh / 4 + n) % 2), n));
+				runs.push_back(std::make_pair(4, (hsh / 8) % 2 ? 0u : maxHelp + 1));
+			}
+			else { runs.push_back(std::make_pair(4, 2u)); }
+			for (size_t r = 0; r != runs.size(); ++r) {
+				int form = runs[r].first; unsigned N = runs[r].second;
+				ll fl = 0;
+				MainApp app(appName, ctx, maxHelp);
+				std::vector<std::string> args;
+				args.push_back(appName);
+				args.push_back(form == 2 ? std::string("--help") : form == 3 ? std::string("-h") : (form == 1 ? "-h" : "--help=") + std::to_string(N));
+				int ret = -1;
+				CallMain call = {&app, &args, &ret};
+				std::string got = captured(call);
+				// reference: a context with the Basic Options written down above + the case's context, at level N-1
+				Po::OptionContext ref("<" + appName + ">");
+				BasicVars bv;
+				bool refFails = false;
+				try {
+					addBasic(ref, app, bv);
+					ref.add(ctx);
+					ref.assignDefaults(Po::ParsedOptions());    // main() has tried the same defaults before (a value that took its default is not parsed again)
+				}
+				catch (const std::exception& e) { refFails = true; if (getenv("C19M_DEBUG") && r == 0) fprintf(stderr, "C19M refused: %.60s\n", e.what()); }
+				if (app.ran) fl |= 16;
+				++statRuns; if (!got.empty()) ++statPrinted; if (refFails) ++statRefused;
+				if (form == 4) {
+					if (!got.empty() || ret != EXIT_FAILURE) fl |= 32;
+				}
+				else if (got.empty() && refFails) {
+					if (ret != EXIT_FAILURE || app.errors == 0) fl |= 8;   // a name / alias of the case clashes with a basic option, or an invalid default: reported, no help
+				}
+				else if (got.empty() || refFails) { fl |= 4; }
+				else {
+					unsigned L = std::min(N - 1, 4u);
+					ref.setActiveDescLevel((Po::DescriptionLevel)(N - 1));
+					std::string rtext;
+					{ Po::StringOut out(rtext); ref.description(out); }
+					std::string usage = "usage: " + appName + " [options]\n";
+					std::string want = appName + " version 1.0\n" + usage + rtext + "\n" + usage + "Default command-line:\n" + appName + " " + ref.defaults(appName.size() + 1) + "\n";
+					if (got != want) fl |= 1;
+					if (ret != EXIT_SUCCESS || app.errors != 0) fl |= 8;
+					// the level rule, read off the printed text alone: an option has its entry (a line "  --[no-]name" + one of "[,= :") iff its own level and
+					// the level of its group (minimum over the adds of its caption; "Basic Options" is a group of level 0) do not exceed N-1 (at most 4)
+					size_t cut = got.rfind("\nusage: ");
+					if (!newline && plain && cut != std::string::npos) {
+						++statLevelChecked;
+						std::string body = got.substr(0, cut + 1);
+						static const char* const basicNames[5] = {"help", "version", "verbose", "time-limit", "fast-exit"};
+						for (int b = 0; b != 5; ++b) {
+							size_t wantN = (b == 4 ? 1u : 0u) <= L ? 1 : 0;
+							if (headerLines(body, basicNames[b]) != wantN) fl |= 2;
+						}
+						for (size_t i = 0; i != acc.size() && i < ctx.size(); ++i) {
+							const Po::Option& opt = **(ctx.begin() + i);
+							size_t g = 0;
+							while (g + 1 < ng && !(groups[g].first <= acc[i] && acc[i] < groups[g].first + groups[g].count)) ++g;
+							ll gl = groups[g].cap == "Basic Options" ? 0 : groups[g].addLevel;
+							for (size_t h = 0; h != ng; ++h) if (groups[h].cap == groups[g].cap) gl = std::min(gl, groups[h].addLevel);
+							size_t wantN = ((ll)opt.descLevel() <= (ll)L && gl <= (ll)L) ? 1 : 0;
+							if (headerLines(body, opt.name()) != wantN) fl |= 2;
+						}
+					}
+				}
+				if (fl && !mainFlags) { mainForm = form; mainN = N; }
+				mainFlags |= fl;
+				if (getenv("C19M_DUMP")) fprintf(stderr, "C19M %s -> ret=%d errors=%d\n%s", args[1].c_str(), ret, app.errors, got.c_str());
+				if (getenv("C19M_DEBUG") && fl) fprintf(stderr, "C19M fl=%lld form=%d N=%u ret=%d errors=%d refFails=%d got=[%s]\n", fl, form, N, ret, app.errors, (int)refFails, got.c_str());
+			}
+		}
 		if (anomaly) { o.add(-997); }
+		if (mainFlags) { o.add(-995); o.add(mainFlags); o.add(mainForm); o.add(mainN); }
 		if (helpFlags) {
 			if (helpDefs.size() > 600) helpDefs.resize(600);
 			o.add(-996); o.add(helpFlags); o.add((ll)helpDefs.size()); o.addBytes(helpDefs.data(), helpDefs.size());
@@ -280,5 +449,6 @@ int main() {
 		catch (const std::exception&)      { o.add(9); }
 		o.flush();
 	}
+	if (getenv("C19M_DEBUG")) fprintf(stderr, "C19M main() runs=%lu printed=%lu refused=%lu level-checked=%lu\n", statRuns, statPrinted, statRefused, statLevelChecked);
 	return 0;
 }
